@@ -409,6 +409,7 @@ def run(ctx):
     chk.rule("R01.5", "parenthesis nesting scales priorities by one constant K >= 100 at every use")
     chk.rule("R01.6", "default float table: only + and * are flagged commutative")
     chk.rule("R01.7", "unary compositions: stored outermost-first, appended before, applied in reverse, printed in order - all sites agree")
+    chk.rule("R01.8", "the functions of a unary composition are applied to a value only by UnaryOp::apply (and helpers private to it); no constant cap on an operator / token sequence")
     fns = ordering_functions(fb)
     chk.floor("R01.1", "application-order functions", len(fns), 2)
     for fbody, sorts in fns:
@@ -533,3 +534,85 @@ def run(ctx):
             off = [k for k, v in bits.items() if not v]
             chk.violation("R01.7", "direction:%s" % ",".join(sorted(off)), "unary composition direction is inconsistent: %s" % bits, loc(ap[0]["span"]) if ap else None)
     chk.floor("R01.7", "direction sites", len(bits), 3)
+
+    application_discipline(chk, fb)
+
+
+def _is_unary_fn_field(place):
+    return any(pr.get("k") == "field" and pr.get("name") == "f" and (pr.get("owner") or "").endswith("operators::UnaryFuncWithIdx")
+               for pr in place.get("proj", []))
+
+
+def application_discipline(chk, fb, RID="R01.8", caps=True):
+    """R01.8: the direction a composition is applied in is decided in one place.  Every other function has to go
+    through UnaryOp::apply; a second loop over funcs_to_be_composed() that applies the functions itself is a second
+    definition of the direction (and of the order of side conditions) that R01.7 does not see."""
+    from analysis.callgraph import CallGraph
+    cg = CallGraph(fb)
+    single = [p for p in fb.bodies if p.endswith("operators::UnaryFuncWithIdx::<T>::apply")]
+    comp = [p for p in fb.bodies if p.endswith("operators::UnaryOp::<T>::apply")]
+    if len(single) != 1 or len(comp) != 1:
+        chk.violation(RID, "anchor", "UnaryFuncWithIdx::apply / UnaryOp::apply not found: %s %s" % (single, comp))
+        return
+    single, comp = single[0], comp[0]
+
+    def owner(p):
+        # closures belong to the function they are written in
+        return re.sub(r"(::\{closure#\d+\})+$", "", p)
+    # helpers private to UnaryOp::apply: reachable from it and called from nowhere else
+    allowed = {comp}
+    grew = True
+    while grew:
+        grew = False
+        for q in fb.bodies:
+            if q in allowed or owner(q) in allowed and not allowed.add(q):
+                continue
+            cs = {owner(c) for c in cg.callers_of(q)}
+            if cs and cs <= allowed and q.startswith("operators::"):
+                allowed.add(q)
+                grew = True
+    allowed.discard(single)
+    n_apply = n_ptr = 0
+    for p, b in fb.bodies.items():
+        if b.get("is_test"):
+            continue
+        fl = set()
+        for bi, si, st in mir.iter_stmts(b):
+            if st["k"] == "assign" and st["rv"]["k"] == "use" and st["rv"]["op"].get("place") and _is_unary_fn_field(st["rv"]["op"]["place"]):
+                fl.add(st["place"]["local"])
+        for bi, t in mir.calls(b):
+            cp = mir.callee_path(t) or ""
+            if cp.endswith("operators::UnaryFuncWithIdx::<T>::apply"):
+                n_apply += 1
+                if owner(p) not in allowed:
+                    chk.violation(RID, "apply:%s" % owner(p), "%s applies the functions of a unary composition itself instead of calling UnaryOp::apply: the application direction (last stored function first) is defined there and nowhere else" % owner(p), loc(t["span"]))
+            f = t["func"]
+            if f.get("k") == "ptr":
+                pl = f["op"].get("place") or {}
+                if pl.get("local") in fl and not pl.get("proj") or _is_unary_fn_field(pl):
+                    n_ptr += 1
+                    if p != single and owner(p) not in allowed:
+                        chk.violation(RID, "call:%s" % owner(p), "%s calls the function pointer of a unary operator directly instead of going through UnaryOp::apply" % owner(p), loc(t["span"]))
+    chk.floor(RID, "applications of one unary function", n_apply + n_ptr, 2)
+    chk.ok(RID, "single definition of the application direction", "%d calls of UnaryFuncWithIdx::apply, %d pointer calls, all inside %s" % (n_apply, n_ptr, sorted(allowed | {single})))
+
+    if not caps:
+        return
+    # no constant cap on a sequence of operators / tokens: Iterator::take(<constant>) and truncate(<constant>)
+    n_take = n_calls = 0
+    for p, b in fb.bodies.items():
+        if b.get("is_test"):
+            continue
+        for bi, t in mir.calls(b):
+            cp = mir.callee_path(t) or ""
+            n_calls += 1
+            if not (cp.endswith("Iterator::take") or cp.endswith("::truncate") or cp.endswith("Iterator::step_by")) or len(t["args"]) < 2:
+                continue
+            n_take += 1
+            a = t["args"][1]
+            c = mir.trace_const(b, a)
+            if c is not None:
+                chk.violation(RID, "cap:%s" % owner(p), "%s cuts a sequence at the constant length %s (%s): expressions with more unary operators / tokens than that are evaluated in a different order or lose operators" % (
+                    owner(p), c.get("named") or c.get("bits"), cp.rsplit("::", 1)[-1]), loc(t["span"]))
+    chk.floor(RID, "calls inspected for a constant cap", n_calls, 1000)
+    chk.ok(RID, "no constant cap", "%d take / truncate / step_by calls, none with a compile-time constant length" % n_take)
